@@ -109,7 +109,7 @@ func c03GetKey(s string) (*c03Key, error) {
 		if err != nil {
 			return nil, err
 		}
-		return &c03Key{jwk: k, coq: "(KOct " + hx.CoqBytes(b) + ")", kind: "oct", oct: b}, nil
+		return &c03Key{jwk: k, coq: "(KOct " + cb(b) + ")", kind: "oct", oct: b}, nil
 	}
 	name, pub := strings.CutSuffix(s, ".pub")
 	k, ok := c03Named[name]
@@ -221,6 +221,37 @@ func obsBytes(out, out2 []byte, err error) c03Obs {
 		return c03Obs{Class: "err", Err: c03Sentinel(err), Clean: len(out) == 0 && len(out2) == 0}
 	}
 	return c03Obs{Class: "ok", Out: out, Out2: out2}
+}
+
+// cb prints a byte string: short ones as a list of N literals, longer ones packed seven bytes
+// to a primitive integer (Check.pk) - an order of magnitude cheaper for coqc to read.
+func cb(b []byte) string {
+	if len(b) <= 16 {
+		return hx.CoqBytes(b)
+	}
+	var sb strings.Builder
+	fmt.Fprintf(&sb, "(pk %d%%Z [", len(b))
+	nw := (len(b) + 6) / 7
+	for w := 0; w < nw; w++ {
+		if w%1000 == 0 {
+			if w > 0 {
+				sb.WriteString("]%uint63;")
+			}
+			sb.WriteString("[")
+		} else {
+			sb.WriteString(";")
+		}
+		var v uint64
+		for k := 0; k < 7; k++ {
+			v <<= 8
+			if i := w*7 + k; i < len(b) {
+				v |= uint64(b[i])
+			}
+		}
+		fmt.Fprintf(&sb, "0x%x", v)
+	}
+	sb.WriteString("]%uint63])")
+	return sb.String()
 }
 
 func coqStr(s string) string { return "\"" + strings.ReplaceAll(s, "\"", "\"\"") + "\"%string" }
@@ -391,8 +422,8 @@ func c03Run(ctx *core.Ctx, in c03Input) (c03Obs, error) {
 			return obsBytes(ct, tag, err)
 		})
 		c.Coq = fmt.Sprintf("CSymEnc %s %s %s %s %s %s %s", hx.CoqBool(in.Generic), coqStr(in.Alg), key.coq,
-			hx.CoqBytes(in.Nonce), hx.CoqBytes(in.AAD), hx.CoqBytes(in.Data),
-			o.coq("("+hx.CoqBytes(o.Out)+", "+hx.CoqBytes(o.Out2)+")"))
+			cb(in.Nonce), cb(in.AAD), cb(in.Data),
+			o.coq("("+cb(o.Out)+", "+cb(o.Out2)+")"))
 		c.Class = fmt.Sprintf("%ssymenc/%s/%s%d/n%d/d%s/a%d", gen, in.Alg, key.kind, keyLen, len(in.Nonce),
 			lenClass(len(in.Data), c03Sym[in.Alg].block), min(len(in.AAD), 6))
 		c.Trivial = o.Class != "ok"
@@ -408,8 +439,8 @@ func c03Run(ctx *core.Ctx, in c03Input) (c03Obs, error) {
 			return obsBytes(pt, nil, err)
 		})
 		c.Coq = fmt.Sprintf("CSymDec %s %s %s %s %s %s %s %s", hx.CoqBool(in.Generic), coqStr(in.Alg), key.coq,
-			hx.CoqBytes(in.Nonce), hx.CoqBytes(in.Tag), hx.CoqBytes(in.AAD), hx.CoqBytes(in.Data),
-			o.coq(hx.CoqBytes(o.Out)))
+			cb(in.Nonce), cb(in.Tag), cb(in.AAD), cb(in.Data),
+			o.coq(cb(o.Out)))
 		why := in.Why
 		if i := strings.IndexByte(why, ':'); i >= 0 {
 			why = why[:i] // mutated component without the byte index
@@ -429,8 +460,8 @@ func c03Run(ctx *core.Ctx, in c03Input) (c03Obs, error) {
 			out, err := padding.UnpadPKCS7(in.Data, in.Size)
 			return obsBytes(out, nil, err)
 		})
-		c.Coq = fmt.Sprintf("CPad %s %s %s %s", hx.CoqBool(in.Op == "unpad"), hx.CoqBytes(in.Data),
-			hx.CoqZ(int64(in.Size)), o.coq(hx.CoqBytes(o.Out)))
+		c.Coq = fmt.Sprintf("CPad %s %s %s %s", hx.CoqBool(in.Op == "unpad"), cb(in.Data),
+			hx.CoqZ(int64(in.Size)), o.coq(cb(o.Out)))
 		c.Class = fmt.Sprintf("%s/s%d/d%d/%s", in.Op, in.Size, len(in.Data), o.Class)
 		c.Trivial = o.Class != "ok"
 	case "kwwrap", "kwunwrap":
@@ -446,8 +477,8 @@ func c03Run(ctx *core.Ctx, in c03Input) (c03Obs, error) {
 			out, err := aeskw.Unwrap(block, in.Data)
 			return obsBytes(out, nil, err)
 		})
-		c.Coq = fmt.Sprintf("CKw %s %s %s %s", hx.CoqBool(in.Op == "kwunwrap"), hx.CoqBytes(key.oct),
-			hx.CoqBytes(in.Data), o.coq(hx.CoqBytes(o.Out)))
+		c.Coq = fmt.Sprintf("CKw %s %s %s %s", hx.CoqBool(in.Op == "kwunwrap"), cb(key.oct),
+			cb(in.Data), o.coq(cb(o.Out)))
 		c.Class = fmt.Sprintf("%s/k%d/d%d/%s", in.Op, keyLen, len(in.Data), in.Why)
 		c.Trivial = o.Class != "ok" && in.Why == ""
 	case "seal", "open":
@@ -476,8 +507,8 @@ func c03Run(ctx *core.Ctx, in c03Input) (c03Obs, error) {
 			out, err := a.Open(nil, in.Nonce, in.Data, in.AAD)
 			return obsBytes(out, nil, err)
 		})
-		c.Coq = fmt.Sprintf("CCbcHs %s %s %s %s %s %s %s", hx.CoqBool(in.Op == "open"), kind, hx.CoqBytes(key.oct),
-			hx.CoqBytes(in.Nonce), hx.CoqBytes(in.Data), hx.CoqBytes(in.AAD), o.coq(hx.CoqBytes(o.Out)))
+		c.Coq = fmt.Sprintf("CCbcHs %s %s %s %s %s %s %s", hx.CoqBool(in.Op == "open"), kind, cb(key.oct),
+			cb(in.Nonce), cb(in.Data), cb(in.AAD), o.coq(cb(o.Out)))
 		c.Class = fmt.Sprintf("%s/%s/k%d/n%d/d%s/a%d/%s", in.Op, in.Kind, keyLen, len(in.Nonce), lenClass(len(in.Data), 16),
 			min(len(in.AAD), 6), in.Why)
 		c.Trivial = o.Class != "ok" && in.Why == ""
@@ -788,6 +819,10 @@ func c03Gen(ctx *core.Ctx) {
 		}
 	}
 
+	// --- (J) long inputs: counters and length fields over their byte boundaries (first: these are
+	// the most expensive cases for the model, their shards should start first)
+	c03GenLong(ctx)
+
 	// --- (A) the sentinel grid: key sizes x nonce lengths 0..32 x tag lengths 0..32
 	for _, alg := range algs {
 		si := c03Sym[alg]
@@ -1049,6 +1084,14 @@ func c03Gen(ctx *core.Ctx) {
 				must(c03Run(ctx, c03Input{Op: "verify", Alg: alg, Key: kn, Data: r.Bytes(h), Mode: mode, Idx: r.Intn(1 << 16), Mask: byte(r.U64())}))
 			}
 		}
+		// several more signatures made by the independent primitive with the matching key (private and
+		// public half): randomised schemes produce a different valid signature each time (high and
+		// low s for ECDSA, fresh salts for PSS) and ALL of them must verify
+		for _, mk := range []string{kn0(alg), kn0(alg) + ".pub"} {
+			for k := 0; k < 6; k++ {
+				must(c03Run(ctx, c03Input{Op: "verify", Alg: alg, Key: mk, Data: r.Bytes(h), Mode: "std"}))
+			}
+		}
 		// every single-byte alteration of the signature and of the digest, smallest matching key
 		kn := map[byte]string{'R': "rsa1024.pub", 'P': "rsa1024", 'E': "ec256"}[alg[0]]
 		switch alg {
@@ -1071,12 +1114,111 @@ func c03Gen(ctx *core.Ctx) {
 			must(c03Run(ctx, c03Input{Op: "verify", Alg: alg, Key: kn, Data: digest, Mode: "mutdig", Idx: i, Mask: byte(r.U64())}))
 		}
 	}
+
+}
+
+// kn0: the private key an algorithm name is defined for (smallest RSA key that fits every hash).
+func kn0(alg string) string {
+	switch alg {
+	case "ES256":
+		return "ec256"
+	case "ES384":
+		return "ec384"
+	case "ES512":
+		return "ec521"
+	case "EdDSA":
+		return "ed25519"
+	}
+	return "rsa1024"
+}
+
+// c03GenLong: inputs long enough to carry the internal counters and length fields of the
+// kit-owned algorithms over their one-byte and two-byte boundaries - the RFC 3394 step counter
+// t = n*j+i (6n > 255 from 344 bytes of key data; 6n > 65535 would need 87 384 bytes, about five
+// minutes of model time per case because the reference implementation is quadratic: not generated),
+// the AL field of AES-CBC-HMAC (bit length of the associated data: 256 bits at 32 bytes, 2^11 at
+// 256, 2^16 at 8192), the block counters of CBC / GCM / ChaCha20 (256 blocks), PKCS#7 with the
+// largest block sizes.  Every case is compared byte for byte with the model and with the
+// independent reference (Kit.Crypto), then decrypted again.
+func c03GenLong(ctx *core.Ctx) {
+	r := ctx.R
+	run := func(alg string, ptLen, aadLen int) {
+		si := c03Sym[alg]
+		key, nonce, aad, pt := octKey(r.Bytes(si.key)), r.Bytes(si.nonce), r.Bytes(aadLen), r.Bytes(ptLen)
+		o := must(c03Run(ctx, c03Input{Op: "symenc", Alg: alg, Key: key, Nonce: nonce, AAD: aad, Data: pt}))
+		ctx.Sink.Count("long/" + alg)
+		if o.Class == "ok" {
+			c03Derive(ctx, alg, key, nonce, aad, pt, o.Out, o.Out2, false, false)
+		}
+	}
+	// key wrap: n = 41, 42 | 43, 44 (6n = 246, 252 | 258, 264), 64, 86 (6n = 516)
+	kwLens := []int{328, 336, 344, 352, 512, 688}
+	for i, alg := range []string{"A128KW", "A192KW", "A256KW"} {
+		for _, ln := range kwLens {
+			if ln > 352 && !ctx.Thorough && (ln == 512) != (i == 1) {
+				continue // the two longest once each in the quick tier
+			}
+			run(alg, ln, 0)
+		}
+		// the package's Unwrap / Wrap directly, and Unwrap of random data of the same lengths
+		ks := []int{16, 24, 32}[i]
+		for _, ln := range []int{336, 344} {
+			key, cek := octKey(r.Bytes(ks)), r.Bytes(ln)
+			o := must(c03Run(ctx, c03Input{Op: "kwwrap", Key: key, Data: cek}))
+			if o.Class == "ok" {
+				must(c03Run(ctx, c03Input{Op: "kwunwrap", Key: key, Data: o.Out, Why: "roundtrip"}))
+				must(c03Run(ctx, c03Input{Op: "kwunwrap", Key: key, Data: flip(o.Out, r.Intn(len(o.Out)), 1), Why: "mut"}))
+			}
+		}
+	}
+	if ctx.Thorough {
+		run("A128KW", 2048, 0)
+		run("A256KW", 4096, 0)
+	}
+	// associated data around 2^8, 2^11 and 2^16 BITS and 2^8 bytes
+	aadLens := []int{31, 32, 33, 255, 256, 257, 8191, 8192}
+	for _, alg := range []string{"A128CBC-HS256", "A192CBC-HS384", "A256CBC-HS512", "A128GCM", "C20P", "XC20P"} {
+		for _, al := range aadLens {
+			if al > 300 && !ctx.Thorough && alg != "A128CBC-HS256" && alg != "A256CBC-HS512" && al != 8192 {
+				continue
+			}
+			run(alg, 20, al)
+		}
+	}
+	for _, kd := range []string{"128-256", "256-384"} {
+		kl := map[string]int{"128-256": 32, "256-384": 56}[kd]
+		for _, al := range []int{32, 256, 8192} {
+			key, nonce, aad, pt := octKey(r.Bytes(kl)), r.Bytes(16), r.Bytes(al), r.Bytes(17)
+			o := must(c03Run(ctx, c03Input{Op: "seal", Kind: kd, Key: key, Nonce: nonce, Data: pt, AAD: aad}))
+			if o.Class == "ok" {
+				must(c03Run(ctx, c03Input{Op: "open", Kind: kd, Key: key, Nonce: nonce, Data: o.Out, AAD: aad, Why: "roundtrip"}))
+			}
+		}
+	}
+	// messages of more than 256 cipher blocks
+	run("A128CBC", 4097, 0)
+	run("A256CBC-NOPAD", 4112, 0)
+	run("A192CBC-HS384", 4100, 5)
+	run("A192GCM", 4099, 5)
+	run("A256GCM", 8200, 0)
+	run("C20PKW", 16390, 5)
+	run("XC20PKW", 16450, 0)
+	// PKCS#7 with large block sizes and buffers around their multiples
+	for _, size := range []int{16, 128, 254, 255} {
+		for _, ln := range []int{size - 1, size, size + 1, 2*size - 1, 2 * size, 4096} {
+			o := must(c03Run(ctx, c03Input{Op: "pad", Data: r.Bytes(ln), Size: size}))
+			if o.Class == "ok" {
+				must(c03Run(ctx, c03Input{Op: "unpad", Data: o.Out, Size: size}))
+				must(c03Run(ctx, c03Input{Op: "unpad", Data: flip(o.Out, len(o.Out)-1-r.Intn(min(size, len(o.Out))-1)/2, 1), Size: size}))
+			}
+		}
+	}
 }
 
 func main() {
 	c03ParseNamed()
 	core.Main("c03", &core.Prop{
-		Header:   "From Kit Require Import C03.Check.",
+		Header:   "From Kit Require Import C03.Check.\nFrom Coq Require Import Uint63.",
 		CaseType: "case",
 		CheckFn:  "run_cases",
 		Shard:    300,
